@@ -2901,34 +2901,40 @@ fn pattern_matches(pattern: &str, text: &str) -> bool {
                     continue;
                 }
                 '[' => {
-                    if let Some(end) = pattern_chars[p_idx..].iter().position(|&c| c == ']') {
-                        let class_end = p_idx + end;
-                        let negate = p_idx + 1 < class_end && pattern_chars[p_idx + 1] == '^';
-                        let start_idx = if negate { p_idx + 2 } else { p_idx + 1 };
-                        
-                        let mut matched = false;
-                        let mut i = start_idx;
-                        while i < class_end {
-                            if i + 2 < class_end && pattern_chars[i + 1] == '-' {
-                                if text_chars[t_idx] >= pattern_chars[i] && text_chars[t_idx] <= pattern_chars[i + 2] {
-                                    matched = true;
-                                    break;
-                                }
-                                i += 3;
-                            } else {
-                                if text_chars[t_idx] == pattern_chars[i] {
-                                    matched = true;
-                                    break;
-                                }
-                                i += 1;
+                    // As in Redis, a backslash takes the next character literally, the first
+                    // unescaped ']' closes the class, a class that is never closed runs to the
+                    // end of the pattern, and the ends of a reversed range are swapped.
+                    let negate = p_idx + 1 < pattern_chars.len() && pattern_chars[p_idx + 1] == '^';
+                    let mut i = if negate { p_idx + 2 } else { p_idx + 1 };
+                    
+                    let mut matched = false;
+                    while i < pattern_chars.len() && pattern_chars[i] != ']' {
+                        if pattern_chars[i] == '\\' && i + 1 < pattern_chars.len() {
+                            i += 1;
+                            if text_chars[t_idx] == pattern_chars[i] {
+                                matched = true;
                             }
+                        } else if i + 2 < pattern_chars.len() && pattern_chars[i + 1] == '-' {
+                            let (low, high) = if pattern_chars[i] <= pattern_chars[i + 2] {
+                                (pattern_chars[i], pattern_chars[i + 2])
+                            } else {
+                                (pattern_chars[i + 2], pattern_chars[i])
+                            };
+                            if text_chars[t_idx] >= low && text_chars[t_idx] <= high {
+                                matched = true;
+                            }
+                            i += 2;
+                        } else if text_chars[t_idx] == pattern_chars[i] {
+                            matched = true;
                         }
-                        
-                        if matched != negate {
-                            p_idx = class_end + 1;
-                            t_idx += 1;
-                            continue;
-                        }
+                        i += 1;
+                    }
+                    
+                    if matched != negate {
+                        // step over the closing ']' if there is one
+                        p_idx = if i < pattern_chars.len() { i + 1 } else { i };
+                        t_idx += 1;
+                        continue;
                     }
                 }
                 '\\' if p_idx + 1 < pattern_chars.len() => {
